@@ -192,3 +192,25 @@ func decodeLikeProxy(b []byte) (msgstream.TsMsg, error) {
 }
 
 func protoreflectString(s string) protoreflect.Value { return protoreflect.ValueOfString(s) }
+
+// setStrField sets a string field of a proto message by any of its candidate proto names.
+func setStrField(m proto.Message, val string, names ...string) bool {
+	r := m.ProtoReflect()
+	for _, n := range names {
+		if f := r.Descriptor().Fields().ByName(protoreflect.Name(n)); f != nil {
+			r.Set(f, protoreflect.ValueOfString(val))
+			return true
+		}
+	}
+	return false
+}
+
+func getStrField(m proto.Message, names ...string) (string, bool) {
+	r := m.ProtoReflect()
+	for _, n := range names {
+		if f := r.Descriptor().Fields().ByName(protoreflect.Name(n)); f != nil {
+			return r.Get(f).String(), true
+		}
+	}
+	return "", false
+}
